@@ -97,7 +97,7 @@ Proof.
   assert (H : Tc tryj tuple n (cs _ w) t).
   { apply (TW_run jst j_slots j_awaited (fun _ i => i) j_handle tuple tuple j_order (fun _ => None) j_pre_any j_finish (fun s => s) j_drop (fun _ => true)
              j_Q J1 J8 J9 J10 J12 (@no_mut jst) (Tc tryj tuple n) (Uc tryj tuple n)
-             (Uc_cont tryj tuple n) (Uc_stop tryj tuple n) (Tc_order tryj tuple n) (Uc_finish tryj tuple n)
+             (Uc_cont tryj tuple n) (Uc_stop tryj tuple n) (fun s is s1 t _ => Tc_order tryj tuple n s is s1 t) (Uc_finish tryj tuple n)
              (fun s t o _ (E: None = Some o) => match E with eq_refl => I end) (fun s t _ Hp => Tc_endp tryj tuple n s t Hp) (Uc_endp tryj tuple n)
              (Tc_Q tryj tuple n) (Uc_Q tryj tuple n) (fun w _ _ _ _ H _ => H) ops); [|exact Hd].
     intros _. cbn. split.
